@@ -9,6 +9,7 @@ THEOREMS = [
     "Mtv.Client.probe_completes",
     "Mtv.Client.service_traffic_silent",
     "Mtv.Client.odd_is_warned",
+    "Mtv.Client.too_deep_is_warned",
     "Mtv.Client.body_decoding_total",
 ]
 RULE = ('hostile histories on the real client: pong, msgs_ack, update objects, unknown constructor, truncated body, empty container, bad_msg_notification (stray and for a pending request), rpc_result for unknown and already answered ids, new_session_created, containers of these, orderly connection close at random points — each followed by a probe request of a fresh caller that must return its own result; the process must survive (a panic in the receive goroutine kills the harness process and is attributed to the scenario), no unencrypted frame may appear after a reconnect. distinct = distinct scenarios')
